@@ -37,7 +37,11 @@ TCPause == Line.e = "c_pause" /\ ~paused /\ U_Pause(TRUE) /\ Mech
 TCResume == Line.e = "c_resume" /\ paused /\ U_Pause(FALSE) /\ Mech
 
 THStart == Line.e = "h_start" /\ InS(Line.s) /\ G_HStart(Line.s) /\ U_HStart(Line.s) /\ Mech
-THWrite == Line.e = "h_write" /\ InS(Line.s) /\ hst[Line.s] = "running" /\ UNCHANGED vars
+(* a first write may carry "Connection: close": a cause for a graceful shutdown *)
+THWrite == /\ Line.e = "h_write" /\ InS(Line.s) /\ hst[Line.s] = "running"
+           /\ IF Has(Line, "close") /\ Line.close THEN U_Cause /\ Mech ELSE UNCHANGED vars
+(* the client sends GOAWAY(NO_ERROR) / the Server is told to shut down gracefully *)
+TCause  == Line.e \in {"c_goaway", "shutdown"} /\ U_Cause /\ Mech
 THRet   == Line.e \in {"h_ret", "h_panic"} /\ InS(Line.s) /\ G_HEnd(Line.s) /\ U_HEnd(Line.s) /\ Mech
 
 TSHdr   == Line.e = "s_hdr" /\ InS(Line.s) /\ G_SResp(Line.s, Line.es, Line.status) /\ U_SResp(Line.s, Line.es, Line.status) /\ Mech
@@ -50,7 +54,10 @@ TSSet   == /\ Line.e = "s_settings"
            /\ IF Line.ack THEN G_SSetAck /\ U_SSetAck /\ Mech
                           ELSE UNCHANGED vars
 TSWU    == Line.e \in {"s_wu", "s_other"} /\ UNCHANGED vars
-TSGoAway == Line.e = "s_goaway" /\ G_SGoAway(Line.code) /\ U_Dead /\ Mech
+TSGoAway == /\ Line.e = "s_goaway"
+            /\ IF Line.code = NoError
+               THEN G_SGoAwayG(Line.last) /\ U_SGoAwayG(Line.last) /\ Mech
+               ELSE G_SGoAway(Line.code) /\ U_Dead /\ Mech
 
 (* White box, exact: with a reading peer the serve loop's curHandlers is the number of application  *)
 (* handlers the driver has seen start and not told to return (a handler that was told to return    *)
@@ -72,7 +79,7 @@ DevGuard ==
 TQDev ==
     /\ DevGuard
     /\ setOwed' = 0 /\ setPaused' = 0
-    /\ UNCHANGED <<adv, cs, kind, recvRST, sentES, sentRST, hst, rejOwed, pings, paused, dead>>
+    /\ UNCHANGED <<adv, gs, cs, kind, recvRST, sentES, sentRST, hst, rejOwed, pings, paused, dead>>
     /\ Mech
 
 TQ == /\ Line.e = "q" /\ Line.state = "ok" /\ SlotsExact
@@ -88,7 +95,7 @@ TNext ==
     /\ dev' = IF DevGuard THEN {"F-settings-acks-merged-while-write-blocked"} ELSE {}
     /\ IF dead THEN TAfter
        ELSE (TQDev \/ TCHdr \/ TCData \/ TCRst \/ TCPing \/ TCSet \/ TCWU \/ TCPause \/ TCResume
-             \/ THStart \/ THWrite \/ THRet
+             \/ THStart \/ THWrite \/ THRet \/ TCause
              \/ TSHdr \/ TSData \/ TSRst \/ TSPing \/ TSSet \/ TSWU \/ TSGoAway \/ TQ)
 
 TSpec == TInit /\ [][TNext]_tvars
